@@ -339,9 +339,24 @@ def observe(proto, rng_np, bindings: list[dict]) -> tuple[list[dict], dict]:
     try:
         sess = oracles._session(inst.SerializeToString(), disable_opt=True)
     except Exception as e:
-        # the plain model loads but the instrumented one does not: keep the message for the report
         stats["not_observable"] = 1
         stats["load_error"] = str(e)[:300]
+        # ORT's own type inference contradicting a declared element type is a contradiction as well
+        import re
+        m = re.search(r"Type \(tensor\((\w+)\)\) of output arg \(([^)]*)\) of node \(([^)]*)\) does not match "
+                      r"expected type \(tensor\((\w+)\)\)", str(e))
+        if m:
+            try:
+                oracles._session(proto.SerializeToString(), disable_opt=True)
+                plain_loads = True
+            except Exception:
+                plain_loads = False
+            if not plain_loads:          # not an artefact of the instrumentation
+                node = m.group(3)
+                prod = re.sub(r"^node_|_\d+$", "", node)
+                return [{"what": "dtype-static", "name": m.group(2), "origin": f"main:{m.group(2)}",
+                         "producer": prod, "elem": m.group(1), "dims": None, "runtime": m.group(4),
+                         "binding": None, "lead": 0}], stats
         return [], stats
     input_syms = set()
     for vi in proto.graph.input:
@@ -394,7 +409,7 @@ def observe(proto, rng_np, bindings: list[dict]) -> tuple[list[dict], dict]:
 # ----------------------------------------------------------------------------- the check
 
 
-CORPUS = [("primitives.lax", "scan_two_diff_lengths")]      # listed defect: exported and observed on every run
+CORPUS = [("primitives.lax", "scan_two_diff_lengths"), ("primitives.lax", "reduce_sum_dtype_f64")]      # listed defect: exported and observed on every run
 
 
 def export_plan(rng: common.Rng, thorough: bool) -> list:
